@@ -1,6 +1,7 @@
 package main
 
 import (
+	"fmt"
 	"go/token"
 	"go/types"
 
@@ -309,6 +310,9 @@ func runC04(c *Ctx) {
 		// left behind for a timer that never fires stays counted (RunPending blocks) with Scheduled() false
 		{
 			settime := p.ExtFunc("golang.org/x/sys/unix", "TimerfdSettime")
+			if len(callsTo(itSet, setReadI)) == 0 {
+				c.bad(itSet, "interest after arming", itSet.Pos(), "Set arms the timerfd but never registers the read interest with the poller: the expiry is never dispatched")
+			}
 			for _, reg := range callsTo(itSet, setReadI) {
 				good := false
 				for _, st := range callsTo(itSet, settime) {
@@ -526,6 +530,45 @@ func runC04(c *Ctx) {
 				c.check(okErr && nRefused > 0, schedOnce, "refused schedule reported", schedOnce.Pos(), "a schedule on a timer that is not ready returns an error", "ScheduleOnce can return nil for a timer that is scheduled or closed: the caller believes its callback is due although nothing was armed")
 				arms := len(deepCallsTo(schedOnce, itSet)) > 0
 				c.check(arms, schedOnce, "arms the timer", schedOnce.Pos(), "the internal timer is set", "ScheduleOnce never arms the internal timer: no scheduled callback ever runs")
+				// the user's function is run by the expiry closure and by the immediate path
+				cbParam := ssa.Value(schedOnce.Params[len(schedOnce.Params)-1])
+				runsCb := func(f *ssa.Function) bool {
+					return containsDeep(f, func(in ssa.Instruction) bool {
+						call, ok := in.(ssa.CallInstruction)
+						if !ok || !isDynamicFuncCall(call) {
+							return false
+						}
+						v := resolveCell(strip(call.Common().Value))
+						if v == cbParam {
+							return true
+						}
+						if fv, ok := v.(*ssa.FreeVar); ok && fv.Name() == schedOnce.Params[len(schedOnce.Params)-1].Name() {
+							return true
+						}
+						if u, ok := v.(*ssa.UnOp); ok {
+							if fv, ok := u.X.(*ssa.FreeVar); ok && fv.Name() == schedOnce.Params[len(schedOnce.Params)-1].Name() {
+								return true
+							}
+						}
+						return false
+					}, 2)
+				}
+				inClosure := false
+				for _, cf := range schedOnce.AnonFuncs {
+					if runsCb(cf) {
+						inClosure = true
+					}
+				}
+				if len(schedOnce.AnonFuncs) == 0 {
+					inClosure = true // the expiry is a method (judged by the expiry rules)
+				}
+				direct := false
+				eachInstr(schedOnce, func(in ssa.Instruction) {
+					if call, ok := in.(ssa.CallInstruction); ok && isDynamicFuncCall(call) && resolveCell(strip(call.Common().Value)) == cbParam {
+						direct = true
+					}
+				})
+				c.check(inClosure && direct, schedOnce, "runs the callback", schedOnce.Pos(), "the callback is run on expiry and at once for a non-positive delay", fmt.Sprintf("ScheduleOnce does not run the user's function (on expiry=%v, at once for delay <= 0=%v): a scheduled callback never runs", inClosure, direct))
 			}
 		}
 		// Cancel: stateReady is recorded exactly when Unset succeeded (a failed Unset leaves the timerfd armed: the timer
